@@ -431,31 +431,23 @@ theorem sim_opUpg {w : World} (hw : w.Good) (a : Args) (hex : srcBool w a = fals
   try simp +instances only [MapObj.norm_of_ne hp]
   sim_walk0
 
-theorem sim_opUpd {w : World} (hw : w.Good) (a : Args)
-    (hex : (srcBool w a && a.get? "vdtype" == some "b1") = false) :
+theorem dtCode_bool : dtCode .bool = "b1" := rfl
+
+/-- `upd` (a `vdtype=` values array of type `b1` is accepted by both boolean kinds) -/
+theorem sim_opUpd {w : World} (hw : w.Good) (a : Args) :
     Sim (HS.opUpd w.norm a) (HS.opUpd w a) := by
   unfold HS.opUpd
   refine sim_withMap hw fun n m hn hget hok hsrc => ?_
-  try dsimp +instances only [World.norm_mocs, World.norm_hpfiles, World.norm_metas]
   rcases m.packed_cases hok.2.1 with hp | ⟨co, so, st, cache, view, rfl⟩
   · simp +instances only [MapObj.norm_of_ne hp]
     sim_walk0
-  · have hvd : a.get? "vdtype" ≠ some "b1" := by
-      rw [hsrc] at hex
-      have h2 : Kind.packed.isBool = true → ¬ a.get? "vdtype" = some "b1" := by simpa using hex
-      exact h2 rfl
-    dsimp +instances only [pkd_norm]
+  · dsimp +instances only [pkd_norm]
     simp only [apiUpdate_pkd_norm]
     cases hv : a.get? "vdtype" with
     | none => sim_walk
     | some t =>
-      have ht : (t != dtCode .bool) = true := by
-        rw [hv] at hvd
-        simp only [bne_iff_ne, ne_eq]
-        intro h; apply hvd; rw [h]; rfl
-      simp only [bln_kind, pkd_kind, ht]
+      simp only [bln_kind, pkd_kind, dtCode_bool]
       sim_walk
-
 
 set_option maxHeartbeats 1000000 in
 theorem sim_opGeom {w : World} (hw : w.Good) (a : Args) : Sim (HS.opGeom w.norm a) (HS.opGeom w a) := by
@@ -1010,6 +1002,12 @@ theorem multiKindOut_ne_packed (k : Kind) (d : String) (hk : k ≠ .packed) : mu
   · intro h; cases h
   · exact hk
 
+theorem multiKindE_ne_packed (k : Kind) (d : String) (hk : k ≠ .packed) : multiKindE k d ≠ .packed := by
+  unfold multiKindE
+  split
+  · intro h; cases h
+  · exact hk
+
 theorem apiMultiOp_norm (row : OpRow) {maps : List MapObj} (hall : ∀ m ∈ maps, m.KindOk) :
     apiMultiOp row (maps.map MapObj.norm) = MapObj.norm <$> apiMultiOp row maps := by
   cases maps with
@@ -1025,7 +1023,7 @@ theorem apiMultiOp_norm (row : OpRow) {maps : List MapObj} (hall : ∀ m ∈ map
         cases hfs
         have : r.kind ≠ .packed := by
           rcases hcase with ⟨hk, _, _⟩ | ⟨hk, _, _⟩
-          · rw [hk]; exact hp
+          · rw [hk]; exact multiKindE_ne_packed _ _ hp
           · rw [hk]; exact multiKindOut_ne_packed _ _ hp
         show Except.ok r = Except.ok r.norm
         rw [MapObj.norm_of_ne this]
@@ -1065,9 +1063,7 @@ theorem sim_opMop {w : World} (hw : w.Good) (a : Args) : Sim (HS.opMop w.norm a)
       boolean weight map;
     * `genhp ord=…` of a boolean map (goes through `degrade`);
     * `dor` on a boolean file or with a boolean weight file (`NotImplementedError` on `BITPACK`);
-    * `nvalid path=str` of a boolean map (`__str__` of a bit-packed map does not count);
-    * `upd … vdtype=b1` on a boolean map (a boolean values array is a "Data-type mismatch" for a
-      bit-packed map). -/
+    * `nvalid path=str` of a boolean map (`__str__` of a bit-packed map does not count). -/
 def asym (w : World) (op : String) (a : Args) : Bool :=
   match op with
   | "info" => srcBool w a
@@ -1076,7 +1072,6 @@ def asym (w : World) (op : String) (a : Args) : Bool :=
   | "deg" => srcBool w a || weightBool w a
   | "genhp" => srcBool w a && (a.nat? "ord").isSome
   | "nvalid" => srcBool w a && a.get? "path" == some "str"
-  | "upd" => srcBool w a && a.get? "vdtype" == some "b1"
   | "dor" => fileBool w (a.getD "f" "f") ||
       (match a.get? "wf" with | some n => fileBool w n | none => false)
   | _ => false
@@ -1097,7 +1092,7 @@ theorem sim_stepArgs {w : World} (hw : w.Good) (op : String) (a : Args) (hex : a
         | exact sim_opCfg a | exact sim_opMocread a | exact sim_opFromhp a | exact sim_opHpximplicit a
         | exact sim_opHpxread a | exact sim_opRand a | exact sim_opDrop a | exact sim_opReset a
         | exact sim_opCovread a
-        | exact sim_opUpdr hw a | exact sim_opSop hw a | exact sim_opAstype hw a | exact sim_opInv hw a
+        | exact sim_opUpd hw a | exact sim_opUpdr hw a | exact sim_opSop hw a | exact sim_opAstype hw a | exact sim_opInv hw a
         | exact sim_opBits hw a | exact sim_opChk hw a | exact sim_opCopy hw a | exact sim_opScov hw a
         | exact sim_opMeta hw a | exact sim_opGetmeta hw a | exact sim_opWrite hw a | exact sim_opInterp hw a
         | exact sim_opHpxwrite hw a | exact sim_opSet hw a | exact sim_opVals hw a | exact sim_opGet hw a
@@ -1112,7 +1107,6 @@ theorem sim_stepArgs {w : World} (hw : w.Good) (op : String) (a : Args) (hex : a
     | ((with_reducible refine sim_opDeg hw a ?_); exact hex)
     | ((with_reducible refine sim_opGenhp hw a ?_); exact hex)
     | ((with_reducible refine sim_opNvalid hw a ?_); exact hex)
-    | ((with_reducible refine sim_opUpd hw a ?_); exact hex)
     | ((with_reducible refine sim_opDor hw a ?_); exact hex)
 
 theorem sim_packed (w : World) (s : String) (pw : PackedWorld) :
@@ -1368,9 +1362,14 @@ second: `a` ordinary), and is flagged -/
 -- `__str__` of a bit-packed map does not count the valid pixels
 #guard answerAfter exSetup₁ "nvalid a path=str" == "nocount" && answerAfter exSetup₂ "nvalid a path=str" == "0" &&
   flagged exSetup₁ "nvalid a path=str"
--- a boolean values array is a "Data-type mismatch" for a bit-packed map
-#guard answerAfter exSetup₁ "upd a pix=6 val=T vdtype=b1" == "err ValueError" &&
-  answerAfter exSetup₂ "upd a pix=6 val=T vdtype=b1" == "ok" && flagged exSetup₁ "upd a pix=6 val=T vdtype=b1"
+-- (history) `upd … vdtype=b1` was flagged by the first version of the model, which treated every
+-- `vdtype=` on a bit-packed map as a "Data-type mismatch": a model artefact, repaired; a boolean
+-- values array is accepted by both kinds, another type refused by both (now PROVED symmetric)
+#guard answerAfter exSetup₁ "upd a pix=6 val=T vdtype=b1" == "ok" &&
+  answerAfter exSetup₂ "upd a pix=6 val=T vdtype=b1" == "ok" &&
+  answerAfter exSetup₁ "upd a pix=6 val=T vdtype=i4" == "err ValueError" &&
+  answerAfter exSetup₂ "upd a pix=6 val=T vdtype=i4" == "err ValueError" &&
+  !flagged exSetup₁ "upd a pix=6 val=T vdtype=b1"
 -- creation: a bit-packed map needs a multiple of 8 pixels per coverage pixel and refuses sentinel `True`
 #guard answerAfter [] "cfg q kind=packed covord=0 spord=1" == "err ValueError" &&
   answerAfter [] "cfg q kind=plain dtype=b1 covord=0 spord=1" == "ok" &&
